@@ -123,7 +123,7 @@ m = {
  "setup_cmd": "cd /verif/govc && GOFLAGS=-mod=vendor GOPROXY=off GOSUMDB=off GOTOOLCHAIN=local go build -o /verif/bin/govc . && cp /verif/scripts/check.sh /verif/bin/check && chmod +x /verif/bin/check",
  "hooks": {
    "guard": "verif",
-   "enable": "go build tag `verif` (govc loads /repo with -tags=verif[,<config tags>]); the guarded files are the comment-only contract files verif_contracts.go (one per package) and verif_hooks.go in the root package, which holds one function, verifRoundTrip (derive key, sign, verify), whose contract is the lemma of C03; none of them is compiled without the tag",
+   "enable": "go build tag `verif` (govc loads /repo with -tags=verif[,<config tags>]); the guarded files are the comment-only contract files verif_contracts.go (one per package) and verif_hooks.go in the root package (tags `verif` AND `verifhooks`, loaded only by the C03 check), which holds one function, verifRoundTrip (derive key, sign, verify), whose contract is the lemma of C03; none of them is compiled without the tags",
    "baseline_off_cmd": "cd /repo && GOFLAGS=-mod=mod GOPROXY=off GOSUMDB=off GOTOOLCHAIN=local go test -vet=off -count=1 ./...",
    "source_commits": src,
    "add_only": True,
